@@ -1,12 +1,19 @@
 #!/bin/bash
 # dev helper: build test binary and run one worker. usage: run1.sh PROP [budget] [seed] [tier]
+# works from any checkout of /verif (uses its own location); scratch under /var/tmp/pegsim-scratch-<checkout name>
 export GOFLAGS=-mod=mod GOPROXY=off GOSUMDB=off GOTOOLCHAIN=local
-rsync -a --delete --exclude .git /repo/ /var/tmp/pegsim-scratch/repo/ && SIMRT_DIR=/verif/pegsim/simrt PATH=/opt/veriftools/go1.26.8/bin:$PATH /verif/bin/pegsim-instrument /var/tmp/pegsim-scratch/repo > /var/tmp/pegsim-scratch/instrument.json; cd /verif/pegsim && go1.26.8 test -c -tags verif -o /var/tmp/pegsim-scratch/pegsim.test ./h 2>&1 | grep -v "warning\|^#\|note:\|sqlite3-binding\|~~~\|\^\|In function\|     |"
-cd /var/tmp/pegsim-scratch && rm -f out-$1.json
-PEGSIM_ONESEED=${ONESEED:-} PEGSIM_KNOWN=/verif/known_findings.json PEGSIM_PROP=$1 PEGSIM_TIER=${4:-quick} PEGSIM_SEED=${3:-1} PEGSIM_BUDGET_S=${2:-20} PEGSIM_OUT=/var/tmp/pegsim-scratch/out-$1.json PEGSIM_REPLAYDIR=/var/tmp/pegsim-scratch/replays ./pegsim.test -test.run '^TestWorker$' -test.timeout 0 2>&1 | grep -v "^\s*$" | head -${LINES_MAX:-40}
+HERE="$(cd "$(dirname "${BASH_SOURCE[0]}")" && pwd)"; VER="$(dirname "$HERE")"
+S=/var/tmp/pegsim-scratch-$(basename "$VER")
+mkdir -p $S
+[ -x "$VER/bin/pegsim-instrument" ] && [ ! "$VER/instrument/main.go" -nt "$VER/bin/pegsim-instrument" ] || ( mkdir -p "$VER/bin"; cd "$VER/instrument" && go1.26.8 build -o "$VER/bin/pegsim-instrument" . )
+rsync -a --delete --exclude .git ${REPO:-/repo}/ $S/repo/ && SIMRT_DIR=$HERE/simrt PATH=/opt/veriftools/go1.26.8/bin:$PATH "$VER/bin/pegsim-instrument" $S/repo > $S/instrument.json
+sed "s#=> /var/tmp/pegsim-scratch/repo#=> $S/repo#; s#=> ./simrt#=> $HERE/simrt#" $HERE/go.mod > $S/go.mod; cp $HERE/go.sum $S/go.sum
+cd $HERE && go1.26.8 test -c -tags verif -modfile=$S/go.mod -o $S/pegsim.test ./h 2>&1 | grep -v "warning\|^#\|note:\|sqlite3-binding\|~~~\|\^\|In function\|     |"
+cd $S && rm -f out-$1.json
+PEGSIM_ONESEED=${ONESEED:-} PEGSIM_KNOWN=$VER/known_findings.json PEGSIM_PROP=$1 PEGSIM_TIER=${4:-quick} PEGSIM_SEED=${3:-1} PEGSIM_BUDGET_S=${2:-20} PEGSIM_OUT=$S/out-$1.json PEGSIM_REPLAYDIR=$S/replays ./pegsim.test -test.run '^TestWorker$' -test.timeout 0 2>&1 | grep -v "^\s*$" | head -${LINES_MAX:-40}
 python3 - <<PY
 import json
-r=json.load(open('/var/tmp/pegsim-scratch/out-$1.json'))
+r=json.load(open('$S/out-$1.json'))
 s=r['stats']
 print('$1','runs',s['runs'],'evals',s['evaluations'],'replicas',s['replicas'],'lifetimes',s['lifetimes'],'blocks',s['blocks'],'nontrivial',s['nontrivial_runs'],'distinct',len(r['distinct'] or []),'wall',round(r['wall_s'],1))
 print(' probes',s['probes']); print(' faults',s['faults'])
